@@ -88,8 +88,10 @@ def cases(tier: str, seed: int) -> List[Dict[str, Any]]:
                     continue
                 out.append({"family": fam, "unit_scale": us, "fmt": None, "final": "compile", "seed": seed})
                 # compile as the last transform of a chain that contains a (deterministic) format simulation
-                if fam in ("mlp", "residual"):
+                if fam == "mlp" or (fam == "residual" and not us):
                     out.append({"family": fam, "unit_scale": us, "fmt": "e5m2rn", "final": "compile", "seed": seed})
+    # scheduling only: chains ending in compile (Inductor) are the expensive ones - run them first
+    out.sort(key=lambda c: (0 if c.get("final") == "compile" else 1, -(int(bool(c.get("fmt"))) + int(bool(c.get("unit_scale"))))))
     return out
 
 
